@@ -22,8 +22,10 @@ for d in sorted(glob.glob(os.path.join(V, "seeded", "C*", "change*"))):
     if os.path.exists(os.path.join(d, "result.txt")):
         lines = [l for l in open(os.path.join(d, "result.txt")).read().split("\n") if l.strip()]
         if lines:
-            mm = re.search(r"\b(CAUGHT|MISSED)\b", lines[-1])
+            mm = re.search(r"\b(CAUGHT|MISSED|NEUTRAL)\b", lines[-1])
             last = mm.group(1) if mm else "?"
+            if last == "NEUTRAL":
+                last = "no longer a breaking change (a later fix: commit covers it)"
     suite = "not run"
     if name.startswith("C19/"):
         suite = "Python package only"
